@@ -106,8 +106,9 @@ def unknown_labels(run, rng, n):
         with warnings.catch_warnings(), dask.config.set(scheduler="sync", split_every=rng.choice([2, 4])):
             warnings.simplefilter("ignore")
             try:
+                sort = rng.random() < 0.6
                 r, g = flox.groupby_reduce(da.from_array(vals, chunks=(chunks,)), da.from_array(labels, chunks=(chunks,)), func=func,
-                                           engine=rng.choice(["numpy", "flox"]))
+                                           engine=rng.choice(["numpy", "flox"]), sort=sort)
                 lazy = isinstance(r, da.Array) and isinstance(g, da.Array)
                 rr, gg = dask.compute(r, g)
                 er, eg = flox.groupby_reduce(vals, labels, func=func, engine="numpy")
@@ -116,11 +117,12 @@ def unknown_labels(run, rng, n):
         run.count(f"unk|{func}|{vals.tolist()}|{labels.tolist()}|{chunks}", len(chunks) > 1)
         got = {float(k): I.fnum(v) for k, v in zip(np.asarray(gg), np.asarray(rr, dtype=float))}
         want = {float(k): I.fnum(v) for k, v in zip(np.asarray(eg), np.asarray(er, dtype=float))}
-        ok = lazy and set(got) == set(want) and all(I.same(got[k], want[k]) for k in want) and list(np.asarray(gg)) == sorted(np.asarray(gg))
+        ok = lazy and set(got) == set(want) and all(I.same(got[k], want[k]) for k in want) \
+            and (not sort or list(np.asarray(gg)) == sorted(np.asarray(gg))) and len(np.asarray(gg)) == len(set(np.asarray(gg).tolist()))
         if not ok:
             run.violation({"property": "C12", "kind": "labels / values found at compute time differ from the eager label->value mapping",
                            "func": func, "vals": [I.fnum(x) for x in vals], "labels": [I.fnum(x) for x in labels], "chunks": list(chunks),
-                           "chunked": got, "eager": want, "lazy": lazy}, tag="unk")
+                           "chunked": got, "eager": want, "lazy": lazy, "sort": sort}, tag="unk")
     run.sample({"unknown_labels_case": {"func": func, "labels": [I.fnum(x) for x in labels], "chunks": list(chunks)}})
 
 
